@@ -13,9 +13,9 @@ type inMap struct {
 	N int           `dials:"n"`
 }
 type demo2Cfg struct {
-	M  map[string]inMap   `dials:"m"`
-	L  [][]time.Duration  `dials:"l"`
-	LS [][]inMap          `dials:"ls"`
+	M  map[string]inMap         `dials:"m"`
+	L  [][]time.Duration        `dials:"l"`
+	LS [][]inMap                `dials:"ls"`
 	MD map[string]time.Duration `dials:"md"`
 }
 
